@@ -30,5 +30,6 @@ def render_enum(model: Enum) -> str:
 @DefaultSQLRenderer.renderer_for(EnumItem)
 def render_enum_item(model: EnumItem) -> str:
     result = comment_to_sql(model.comment) if model.comment else ''
-    result += f"'{model.name}',"
+    name = model.name.replace("'", "''")
+    result += f"'{name}',"
     return result
